@@ -724,6 +724,25 @@ def rxerror_immutable(P, E, H=None):
                     r.violate((b.nid, "clone does not share the Arc"), "RxError::clone does not simply clone the Arc", body=b)
     if n < 4:
         r.error("T-rxerror: only %d RxError methods found (floor 4)" % n)
+    # an RxError is never wrapped into another RxError: a generic constructor (RxError::from_error / from_result, observables::error,
+    # observables::from_result, anything generic over the payload type) instantiated with E = RxError boxes the error as the PAYLOAD
+    # of a new one - the subscriber's downcast_ref::<Original>() then finds an RxError, not the original value
+    nwrap = 0
+    for b in P.orig.values():
+        if b.kind == "const":
+            continue
+        for c in b.calls:
+            ta = getattr(c, "targs", None) or []
+            if not ta:
+                continue
+            if not (c.path.startswith("rx_error::") or c.path.startswith("observables::from_result") or c.path.startswith("observables::error")):
+                continue
+            nwrap += 1
+            if any(isinstance(t, dict) and norm(t.get("path") or "") == "rx_error::RxError" for t in ta):
+                r.violate((b.nid, "RxError wrapped into an RxError"),
+                          "%s instantiates %s with the payload type RxError: the error is boxed as the payload of a new RxError and "
+                          "downcast_ref::<E>() on what the subscriber receives no longer finds the original value" % (b.nid, c.path), body=b, line=c.line)
+    r.instance(("rx_error::RxError", "constructors"), True, "%d generic error constructor calls examined" % nwrap)
     return r
 
 
